@@ -419,6 +419,7 @@ else:
     N = case.get('N', 1)
     pos = np.array([[float(F(m.get(f'pos[{{i}},{{j}}]', 0))) for j in range(3)] for i in range(N)], dtype=np.float64)
     w = np.array([float(F(m.get(f'w[{{i}}]', 1))) for i in range(N)], dtype=np.float64)
+    if not w.any(): w[:] = 1.0      # a witness about WHERE the kernel is centred is only observable with a non-zero weight
     G0 = np.zeros(shape, dtype=np.float64)
     for idx in np.ndindex(*shape):
         G0[idx] = float(F(m.get('G0[' + ','.join(map(str, idx)) + ']', 0)))
